@@ -1,1 +1,4 @@
 import GolibsVerif.Model.Lru
+import GolibsVerif.Lemmas.LruBasic
+import GolibsVerif.Lemmas.LruSim
+import GolibsVerif.Lemmas.LruEvents
